@@ -12,6 +12,8 @@
 (*   Covers         where the offending text is known (an injected fault,  *)
 (*                  a lexical error) a diagnostic with the fault's code    *)
 (*                  has a span that intersects it;                         *)
+(*   CoversAt       for a layout variant of an input with known diagnostics *)
+(*                  every one of them is found at its new place;           *)
 (*   Renders        Error::build_report + write succeeds in all four       *)
 (*                  colour x charset configurations of stdout.rs.          *)
 (* A file is [name, nchars, lines] with lines = the character offsets of   *)
@@ -46,6 +48,15 @@ ColOK(d, mods) == \A i \in FileOf(mods, d.file) :
 
 Intersects(d, lo, hi) == (d.start < hi /\ lo < d.end) \/ (d.start = d.end /\ lo <= d.start /\ d.start <= hi)
 Covers(ds, fault) == \E x \in 1..Len(ds) : ds[x].code = fault.code /\ Intersects(ds[x], fault.start, fault.end)
+
+\* A LAYOUT VARIANT of an input whose diagnostics are known (the same text without its final line break, behind an
+\* extra line, as one line, as the second / third module of a set, twice in one file): the offending text has moved
+\* with the layout, so a diagnostic with the same code is expected in the named file, on the line the text is on now
+\* and -- where the transformation shifts every character alike -- at the shifted span.
+At(d, f) == /\ d.code = f.code /\ d.file = f.file
+            /\ ("line" \in DOMAIN f) => d.line = f.line
+            /\ ("start" \in DOMAIN f) => (d.start = f.start /\ d.end = f.end)
+CoversAt(ds, f) == \E x \in 1..Len(ds) : At(ds[x], f)
 
 \* the harness logs r4 = TRUE when all four renderings succeeded, showed the code and were clean,
 \* and the four detailed results otherwise
